@@ -98,12 +98,15 @@ class Node:
         self.clock = clock
 
 
-def validate_once(claims: dict, requests: dict, leeway, explicit_now):
-    """the validator's delivery handler; returns (outcome class | 'ok', exception)"""
+def validate_once(claims: dict, requests: dict, leeway, explicit_now, age_hook=None):
+    """the validator's delivery handler; returns (outcome class | 'ok', exception).  age_hook: called between building the
+    registry and validating (a long-lived registry: time passes in between)"""
     from joserfc.jwt import JWTClaimsRegistry
     try:
         if explicit_now is None:
             reg = JWTClaimsRegistry(leeway=leeway, **copy.deepcopy(requests))
+            if age_hook is not None:
+                age_hook()
         else:
             reg = JWTClaimsRegistry(now=explicit_now, leeway=leeway, **copy.deepcopy(requests))
         reg.validate(claims)
@@ -212,7 +215,13 @@ def run(rng: Rng, tier: str, index: int) -> RunResult:
             if got_claims is None:
                 return
         before = copy.deepcopy(got_claims)
-        outcome, exc = validate_once(got_claims, requests, leeway, explicit)
+        age = 0
+        if explicit is None and erng.chance(0.3):
+            # the registry is built once and used later (a module-level claims request): "now" is the time of validation
+            age = erng.pick([1, 30, 3600, 86400, 86400 * 30])
+            res.fired("long-lived-registry")
+        outcome, exc = validate_once(got_claims, requests, leeway, explicit, (lambda: validator.clock.jump(age)) if age else None)
+        tv = validator.clock.time()
         verdict = judge(before, requests, leeway, explicit, tv, outcome, got_claims)
         res.case(json.dumps([before, requests, leeway, explicit if explicit is not None else tv], sort_keys=True, default=repr))
         tr.add("v", outcome)
@@ -222,8 +231,8 @@ def run(rng: Rng, tier: str, index: int) -> RunResult:
         if verdict[0] == "dontcare":
             res.probe("dontcare:" + verdict[1][:40])
             return
-        res.violation(ID, verdict[0], verdict[1], {"claims": before, "requests": requests, "leeway": leeway,
-                                                   "explicit_now": explicit, "clock": tv})
+        res.violation(ID, verdict[0] + (":long-lived-registry" if age else ""), verdict[1] + (" [registry built %d s before the validation]" % age if age else ""),
+                      {"claims": before, "requests": requests, "leeway": leeway, "explicit_now": explicit, "clock": tv, "registry_age": age})
 
     def through_jwt(claims, res):
         """issuer encodes (datetime exp/nbf/iat), validator decodes: the JWT leg"""
@@ -283,9 +292,11 @@ def run(rng: Rng, tier: str, index: int) -> RunResult:
 def replay(repro: dict):
     claims = copy.deepcopy(repro["claims"])
     tv = repro["clock"]
-    with seams.clock(seams.Clock(lambda: tv)):
-        outcome, exc = validate_once(claims, repro["requests"], repro["leeway"], repro["explicit_now"])
+    age = repro.get("registry_age", 0)
+    t = {"now": tv - age}
+    with seams.clock(seams.Clock(lambda: t["now"])):
+        outcome, exc = validate_once(claims, repro["requests"], repro["leeway"], repro["explicit_now"], (lambda: t.update(now=tv)) if age else None)
     v = judge(repro["claims"], repro["requests"], repro["leeway"], repro["explicit_now"], tv, outcome, claims)
     if v is None or v[0] == "dontcare":
         return []
-    return [v]
+    return [(v[0] + (":long-lived-registry" if age else ""), v[1])]
